@@ -7,7 +7,8 @@ import SlipVerif.Driver.Util
        content : ~ (absent) | hex utf-8 ("-" empty)
        event   : A:<form> | C:<start>:<stop> | L:<n> | R:<limit> | X:<k>:<limit>:<A:..|C:..|L:..>
        form    : ~ (no lines) | <line>,<line>,…   line = hex utf-8 ("-" empty)
-     reply: ok <ev>*   ev = mem=<forms>|load=<forms>|hist=<content>|tmp=<content>|lim=<n>|steps=<shape>|crash=<c0>;<c1>;…
+     reply: ok <ev>*   ev = mem=<forms>|omem=<forms>|load=<forms>|hist=<content>|tmp=<content>|lim=<n>|steps=<shape>|crash=<c0>;<c1>;…
+       (omem = memory after the completed operation, also for an X event)
        forms = . (none) | <form>/<form>/…      ck = <fnv32 hist|~>:<fnv32 tmp|~>:<forms loaded | = (as previous k)>
        (for an X event mem/load/hist/tmp describe the world after the restart)
    hist decode <content>            -> ok <forms>          History.Load of arbitrary content
@@ -99,7 +100,10 @@ def showEvent (cfg : Cfg) (w : World) (e : Event) : String × World :=
   let steps := match opOf e with
     | some o => (perform cfg w.mem o).2
     | none => []
-  (s!"mem={showForms w'.mem.forms}|load={showForms (load w'.fs)}|hist={showContent w'.fs.hist}|tmp={showContent w'.fs.tmp}|lim={w'.mem.limit}|steps={showSteps steps}|crash={showCrash (crashStates w.fs steps)}", w')
+  let omem := match opOf e with
+    | some o => (perform cfg w.mem o).1.forms
+    | none => w'.mem.forms
+  (s!"mem={showForms w'.mem.forms}|omem={showForms omem}|load={showForms (load w'.fs)}|hist={showContent w'.fs.hist}|tmp={showContent w'.fs.tmp}|lim={w'.mem.limit}|steps={showSteps steps}|crash={showCrash (crashStates w.fs steps)}", w')
 
 def runEvents (cfg : Cfg) : World → List Event → List String
   | _, [] => []
